@@ -1354,3 +1354,161 @@ V("C18", "C18.R3", "c18-result-not-pushed", "shroud/wrapl.py",
         ],''', "fire", "lua_bool_scalar_result")
 V("C18", "C18.R3", "c18-field-typo", "shroud/wrapl.py",
   '''            "bool {c_var} = {pop_expr};",''', '''            "bool {c_var} = {pop_exp};",''', "fire", "lua_bool_scalar_in")
+
+# ---------------------------------------------------------------------------
+# C02
+# ---------------------------------------------------------------------------
+V("C02", "C02.R1", "c02-static-gets-this", "shroud/wrapc.py",
+  '''                if is_static:
+                    fmt_func.CXX_this_call = (
+                        fmt_func.namespace_scope + fmt_func.class_scope
+                    )
+                else:''',
+  '''                if is_static:
+                    fmt_func.CXX_this_call = (
+                        fmt_func.namespace_scope + fmt_func.class_scope
+                    )
+                if True:''', "fire", "wrap_function")
+V("C02", "C02.R1", "c02-this-cast-wrong-member", "shroud/wrapc.py",
+  '"{cast_static}{c_const}{namespace_scope}{cxx_type} *{cast1}{c_var}->addr{cast2};",',
+  '"{cast_static}{c_const}{namespace_scope}{cxx_type} *{cast1}{c_var}{cast2};",', "fire", "instance")
+V("C02", "C02.R1", "c02-call-without-this", "shroud/wrapc.py",
+  '''                "{CXX_this_call}{function_name}"
+                "{CXX_template}({C_call_list});",''',
+  '''                "{function_name}"
+                "{CXX_template}({C_call_list});",''', "fire", "call-through-this")
+V("C02", "C02.R2", "c02-call-list-insert", "shroud/wrapc.py",
+  '''                    if arg.is_pointer():
+                        call_list.append("&" + fmt_arg.cxx_var)''',
+  '''                    if arg.is_pointer():
+                        call_list.insert(0, "&" + fmt_arg.cxx_var)''', "fire", "call_list.insert")
+V("C02", "C02.R2", "c02-params-reversed", "shroud/wrapc.py",
+  '''        # --- Loop over function parameters
+        for arg in ast.params:
+            arg_name = arg.name
+            fmt_arg0 = fmtargs.setdefault(arg_name, {})
+            fmt_arg = fmt_arg0.setdefault("fmtc", util.Scope(fmt_func))''',
+  '''        # --- Loop over function parameters
+        for arg in reversed(ast.params):
+            arg_name = arg.name
+            fmt_arg0 = fmtargs.setdefault(arg_name, {})
+            fmt_arg = fmt_arg0.setdefault("fmtc", util.Scope(fmt_func))''', "fire", "param-loop")
+V("C02", "C02.R3", "c02-deref-swapped", "shroud/wrapc.py",
+  '''    elif local_var == "pointer":
+#        fmt.cxx_deref = "*"
+        fmt.cxx_member = "->"
+        fmt.cxx_addr = ""''',
+  '''    elif local_var == "pointer":
+#        fmt.cxx_deref = "*"
+        fmt.cxx_member = "."
+        fmt.cxx_addr = ""''', "fire", "compute_cxx_deref")
+V("C02", "C02.R3", "c02-reference-not-dereferenced", "shroud/wrapc.py",
+  '''                    #}
+                    call_list.append("*" + fmt_arg.cxx_var)
+                else:
+                    call_list.append(fmt_arg.cxx_var)''',
+  '''                    #}
+                    call_list.append(fmt_arg.cxx_var)
+                else:
+                    call_list.append(fmt_arg.cxx_var)''', "fire", "call[reference]")
+V("C02", "C02.R3", "c02-return-prefix", "shroud/statements.py",
+  '''    if local_var == "scalar":
+        if arg.is_pointer():
+            return "&"
+        else:
+            return ""''',
+  '''    if local_var == "scalar":
+        if arg.is_pointer():
+            return ""
+        else:
+            return "&"''', "fire", "compute_return_prefix")
+V("C02", "C02.R4", "c02-mpi-one-way", "shroud/typemap.py",
+  '''            cxx_to_c="MPI_Comm_c2f({cxx_var})",
+            c_to_cxx="MPI_Comm_f2c({c_var})",''',
+  '''            cxx_to_c="MPI_Comm_c2f({cxx_var})",
+            c_to_cxx="MPI_Comm_c2f({c_var})",''', "fire", "MPI_Comm")
+V("C02", "C02.R4", "c02-enum-cast-back-int", "shroud/typemap.py",
+  '"static_cast<{namespace_scope}{enum_name}>({{c_var}})", fmt_enum', '"static_cast<int>({{c_var}})", fmt_enum',
+  "fire", "create_enum_typemap")
+V("C02", "C02.R5", "c02-const-dropped-in-proto", "shroud/declast.py",
+  '''        const_index = None
+        if self.const:
+            const_index = len(decl)
+            decl.append("const ")
+        if self.volatile:
+            decl.append("volatile ")''',
+  '''        const_index = None
+        if self.volatile:
+            decl.append("volatile ")''', "fire", "gen_arg_as_lang:const")
+V("C02", "C02.R6", "c02-c-name-no-scope", "shroud/ast.py",
+  '"{C_prefix}{C_name_scope}{underscore_name}{function_suffix}{template_suffix}"',
+  '"{C_prefix}{underscore_name}{function_suffix}{template_suffix}"', "fire", "C_name_template")
+V("C02", "C02.R7", "c02-cxx-index-conditional", "shroud/generate.py",
+  '''        C_new.wrap.assign(c=True)
+        C_new._PTR_C_CXX_index = node._function_index
+
+        for arg in C_new.ast.params:
+            attrs = arg.attrs
+            meta = arg.metaattrs''',
+  '''        C_new.wrap.assign(c=True)
+        if has_buf_arg:
+            C_new._PTR_C_CXX_index = node._function_index
+
+        for arg in C_new.ast.params:
+            attrs = arg.attrs
+            meta = arg.metaattrs''', "fire", "arg_to_buffer")
+
+# ---------------------------------------------------------------------------
+# C01
+# ---------------------------------------------------------------------------
+V("C01", "C01.R1", "c01-buffer-link-dropped", "shroud/generate.py",
+  '''            # Fortran function calls bufferify function.
+            node._PTR_F_C_index = C_new._function_index
+        return True
+
+    def arg_to_buffer(''',
+  '''            # Fortran function calls bufferify function.
+            pass
+        return True
+
+    def arg_to_buffer(''', "fire", "_PTR_F_C_index")
+V("C01", "C01.R1", "c01-generic-links-self", "shroud/generate.py",
+  "                new._PTR_F_C_index = cnew._function_index",
+  "                new._PTR_F_C_index = new._function_index", "fire", "generic_function")
+V("C01", "C01.R1", "c01-impl-no-follow", "shroud/wrapf.py",
+  "            C_node = self.newlibrary.function_index[C_node._PTR_F_C_index]",
+  "            C_node = self.newlibrary.function_index[C_node._function_index]; break", "fire", "follow")
+V("C01", "C01.R1", "c01-call-template-wrong-args", "shroud/wrapf.py",
+  '"call {F_C_call}({F_arg_c_call})"', '"call {F_C_call}({F_arguments})"', "fire", "call-template")
+V("C01", "C01.R2", "c01-bool-in-no-copy", "shroud/statements.py",
+  '''        name="f_bool_in",
+        c_local_var=True,
+        pre_call=["{c_var} = {f_var}  ! coerce to C_BOOL"],''',
+  '''        name="f_bool_in",
+        c_local_var=True,''', "fire", "f_bool_in")
+V("C01", "C01.R2", "c01-bool-inout-no-copy-back", "shroud/statements.py",
+  '''        pre_call=["{c_var} = {f_var}  ! coerce to C_BOOL"],
+        post_call=["{f_var} = {c_var}  ! coerce to logical"],''',
+  '''        pre_call=["{c_var} = {f_var}  ! coerce to C_BOOL"],
+        post_call=["{c_var} = {f_var}  ! coerce to logical"],''', "fire", "f_bool_inout")
+V("C01", "C01.R2", "c01-bool-comment-changed", "shroud/statements.py",
+  '        post_call=["{f_var} = {c_var}  ! coerce to logical"],\n    ),\n    dict(\n        name="f_bool_inout",',
+  '        post_call=["{f_var} = {c_var}  ! to logical"],\n    ),\n    dict(\n        name="f_bool_inout",', "silent")
+V("C01", "C01.R3", "c01-arg-c-call-insert", "shroud/wrapf.py",
+  "                    arg_c_call.append(fmt.c_var)\n                continue",
+  "                    arg_c_call.insert(0, fmt.c_var)\n                continue", "fire", "arg_c_call")
+V("C01", "C01.R3", "c01-f-names-sorted", "shroud/wrapf.py",
+  "        if arg_c_call:\n            fmt_func.F_arg_c_call",
+  "        if arg_c_call:\n            arg_c_call.sort()\n            fmt_func.F_arg_c_call", "fire", "arg_c_call")
+V("C01", "C01.R6", "c01-result-blk-in-arg-loop", "shroud/wrapf.py",
+  '''                    if f_intent_blk.arg_name:
+                        for aname in f_intent_blk.arg_name:
+                            append_format(arg_f_names, aname, fmt_arg)''',
+  '''                    if f_result_blk.arg_name:
+                        for aname in f_result_blk.arg_name:
+                            append_format(arg_f_names, aname, fmt_result)''', "fire", "wrap_function_impl")
+V("C01", "C01.R4", "c01-context-dropped-from-c-entry", "shroud/statements.py",
+  '''        name="c_native_*_result_buf",
+        buf_args=["context"],''',
+  '''        name="c_native_*_result_buf",
+        buf_args=[],''', "fire", "context")
